@@ -44,6 +44,7 @@ def main():
     for k, v in list(ns.items()):
         if isinstance(v, list):
             ns[k] = tuple(v)
+    exec(plan.get("prelude", ""), ns)   # helper functions of the interpreted side
     skip = set(plan.get("skip", []))
     for cid, mod, expr in plan["calls"]:
         if cid in skip:
